@@ -405,7 +405,9 @@ func c03Gen(b *bridgeHist, blk int, muts []depMutator) {
 		case x < 7 && len(fresh)+len(done) > 0: // one mutated item
 			pool := append(append([]*depTruth{}, fresh...), done...)
 			t := pool[r.Intn(len(pool))]
-			m := muts[r.Intn(len(muts))]
+			// every mutator in turn (the starting point differs per history), so that a run of any size uses them all
+			m := muts[b.mutNext%len(muts)]
+			b.mutNext++
 			d := b.genuineDeposit(t)
 			hs := hdrsFor([]*depTruth{t})
 			if !m.f(b, t, d, &hs) {
